@@ -40,6 +40,11 @@ async def expect_async(expecter, timeout=None):
     except asyncio.TimeoutError as exc:
         transport.pause_reading()
         return expecter.timeout(exc)
+    except asyncio.CancelledError:
+        # The caller gave up on this call: stop reading, so that what arrives
+        # later is left for the next call instead of being fed to this one.
+        transport.pause_reading()
+        raise
 
 
 async def repl_run_command_async(repl, cmdlines, timeout=-1):
